@@ -408,7 +408,12 @@ fn apply_end_tag_ops(et: &mut EndTag<'_>, ops: &[Op], hid: usize, off: usize) {
             continue;
         }
         if let Op::SetTagName(n) = op {
-            et.set_name_str(n.clone());
+            // both spellings of the API
+            if n.len() % 2 == 0 {
+                et.set_name(n.as_str());
+            } else {
+                et.set_name_str(n.clone());
+            }
         }
     }
 }
